@@ -185,7 +185,7 @@ def run_ambient(which, tmp, envf, timeout=900):
            "--timeout=900", "--continue-on-collection-errors", "-x", "--maxfail=1000", "msdm/tests"]
     cmd.remove("-x")
     try:
-        p = subprocess.run(cmd, cwd="/repo", env=env, stdout=subprocess.PIPE, stderr=subprocess.STDOUT, timeout=timeout)
+        p = subprocess.run(cmd, cwd=os.environ.get("VERIF_REPO") or "/repo", env=env, stdout=subprocess.PIPE, stderr=subprocess.STDOUT, timeout=timeout)
         tail = p.stdout.decode()[-300:]
     except subprocess.TimeoutExpired:
         tail = "timeout"
